@@ -36,7 +36,7 @@ package atree
 //@ # otherwise the iterator covers exactly [startIndex, endIndex)
 //@ func (a *Array) RangeIterator(startIndex, endIndex) (it, err)  serves C13 C18
 //@   requires isArr(a.root)
-//@   ensures[C18] (startIndex > acount(a) || endIndex > acount(a) || startIndex > endIndex) ==> err != nil && isUser(err) && it == nil
+//@   ensures[C13 C18] (startIndex > acount(a) || endIndex > acount(a) || startIndex > endIndex) ==> err != nil && isUser(err) && it == nil
 //@   ensures[C13] startIndex <= endIndex && endIndex <= acount(a) ==> err == nil
 //@   ensures[C13] startIndex < endIndex && endIndex <= acount(a) ==> it != nil && is(it, *mutableArrayIterator) && fresh(it) &&
 //@        as(it, *mutableArrayIterator).array == a && as(it, *mutableArrayIterator).nextIndex == startIndex && as(it, *mutableArrayIterator).lastIndex == endIndex
@@ -81,7 +81,7 @@ package atree
 //@   assume is(a.root, *ArrayMetaDataSlab) ==> wfMeta(as(a.root, *ArrayMetaDataSlab)) because "tree invariant: the root index slab is well formed (C01)"
 //@   assume flatDef(a.root) because "definition of the ghost function flat (unfolding at the root)"
 //@   assume is(a.root, *ArrayDataSlab) ==> as(a.root, *ArrayDataSlab).header.count == len(as(a.root, *ArrayDataSlab).elements) because "tree invariant: a leaf's count is its number of elements (C01)"
-//@   ensures[C18] (startIndex > acount(a) || endIndex > acount(a) || startIndex > endIndex) ==> err != nil && isUser(err) && it == nil
+//@   ensures[C13 C18] (startIndex > acount(a) || endIndex > acount(a) || startIndex > endIndex) ==> err != nil && isUser(err) && it == nil
 //@   ensures[C18] err != nil ==> categorised(err)
 //@   ensures[C13] startIndex == endIndex && endIndex <= acount(a) ==> err == nil && it == emptyReadOnlyArrayIterator
 //@   ensures[C13] err == nil && startIndex < endIndex ==> is(it, *readOnlyArrayIterator) && fresh(it) && as(it, *readOnlyArrayIterator).array == a &&
